@@ -317,7 +317,9 @@ func checkC02(e *RunEnv) *CheckResult {
 func nestedTwinCases() [][]Step {
 	base := []Step{Write("lib/a.txt", "lib a\n"), Write("src/lib/a.txt", "src lib a\n"), Write("src/main.go", "main\n"),
 		Write("d/f", "f\n"), Write("d/s/x", "x\n"), Write("d/s/y", "y\n"), Write("d/t/only", "only\n"),
-		Run("add", "lib", "src", "d"), Run("commit", "-m", "base")}
+		// two sibling directories with different names and identical content (one tree id under two names)
+		Write("tw1/p", "same\n"), Write("tw1/q", "q\n"), Write("tw2/p", "same\n"), Write("tw2/q", "q\n"),
+		Run("add", "lib", "src", "d", "tw1", "tw2"), Run("commit", "-m", "base")}
 	tails := [][]Step{
 		{Write("src/lib/b.txt", "new in nested\n"), Run("add", "src"), Run("commit", "-m", "nested changed, top-level twin untouched")},
 		{Write("lib/b.txt", "new in top\n"), Run("add", "lib"), Run("commit", "-m", "top-level changed, nested twin untouched")},
@@ -325,6 +327,11 @@ func nestedTwinCases() [][]Step {
 		{Run("rm", "d/t/only"), Run("commit", "-m", "nested directory emptied")},
 		{Run("rm", "d/f"), Run("commit", "-m", "direct child removed"), Run("rm", "d/s"), Run("commit", "-m", "nested directory removed")},
 		{Run("rm", "d/s/x"), Write("d/s/z", "z\n"), Run("add", "d/s/z"), Run("commit", "-m", "one removed, one added: same count")},
+		// a pure rename inside a directory: same blob ids position by position, different names (seeded change C02-r8m1)
+		{Write("d/s/x2", "x\n"), Run("rm", "d/s/x"), Run("add", "d/s/x2"), Run("commit", "-m", "renamed in place"), Run("reset", "--mixed", "HEAD@{1}"), Run("write-tree")},
+		{Write("lib/b.txt", "lib a\n"), Run("rm", "lib/a.txt"), Run("add", "lib/b.txt"), Run("commit", "-m", "only file of a directory renamed")},
+		// a directory renamed as a whole: the tree id stays, its name changes
+		{Write("tw3/p", "same\n"), Write("tw3/q", "q\n"), Run("rm", "tw1"), Run("add", "tw3"), Run("commit", "-m", "directory renamed"), Run("reset", "--mixed", "HEAD@{1}")},
 		// everything removed: the empty snapshot is a snapshot (its tree must be stored), and history goes on after it
 		{Run("rm", "lib", "src", "d"), Run("commit", "-m", "emptied"), Write("again", "again\n"), Run("add", "again"), Run("commit", "-m", "after the empty snapshot"), Run("reset", "--mixed", "HEAD@{1}"), Run("write-tree")},
 		// an ignore file written after the paths it names were staged: the snapshot is still what is staged
